@@ -58,6 +58,19 @@ class Ctx:
         return False
 
 
+def untraced(ctx):
+    """Context manager that suspends CrossHair's tracing for a section whose
+    inputs are all concrete at that point (bisected selectors, pool values):
+    symbolic execution adds nothing there, only interpretive overhead."""
+    import contextlib
+
+    if ctx.native:
+        return contextlib.nullcontext()
+    from crosshair.tracers import NoTracing
+
+    return NoTracing()
+
+
 # ---------------------------------------------------------------------------
 # known findings
 # ---------------------------------------------------------------------------
